@@ -155,8 +155,29 @@ def voice_work(args):
             ba = bitarray(endian="big")
             ba.frombytes(raw)
             rec["bytes"] = pack(ba)
-            bt = BurstTypes.Vocoder if emb or rng.random() < 0.5 else rng.choice([BurstTypes.DataAndControl, BurstTypes.Undefined])
-            p = Burst.from_bytes(raw, burst_type=bt)
+            # every public way in: the plain from_bytes(x) the statement observes at (no hint), the constructor, from_bits, and
+            # from_bytes with the hint a caller who knows the burst kind gives
+            way = k % 4
+            if k % 8 == 7 and emb:
+                # a DATA burst whose centre carries embedded signalling (reverse channel) instead of a sync pattern, given as
+                # such: the same 264 bits come back (slot type and embedded signalling name the same colour code)
+                from okdmr.dmrlib.etsi.layer2.elements.data_types import DataTypes
+                d = bitarray(endian="big")
+                d.frombytes(gen.assemble_data_burst(gen.other_csbk(rng, 5), DataTypes.CSBK, rec["cc"], "BsSourcedData"))
+                d[108:156] = ba[108:156]
+                ba, raw, way = d, d.tobytes(), 4
+                rec["bytes"] = pack(ba)
+            if way == 0:
+                p = Burst.from_bytes(raw)
+            elif way == 1:
+                p = Burst(full_bits=ba.copy())
+            elif way == 2:
+                p = Burst.from_bits(ba.copy(), BurstTypes.Undefined if rng.random() < 0.5 else BurstTypes.Vocoder)
+            elif way == 4:
+                p = Burst.from_bytes(raw, burst_type=BurstTypes.DataAndControl)
+            else:
+                bt = BurstTypes.Vocoder if emb or rng.random() < 0.5 else rng.choice([BurstTypes.DataAndControl, BurstTypes.Undefined])
+                p = Burst.from_bytes(raw, burst_type=bt)
             rec["has_emb"], rec["is_start"] = bool(p.has_emb), bool(p.is_voice_superframe_start)
             rec["pcc"] = p.colour_code if p.has_emb else -1
             ba2 = bitarray(endian="big")
